@@ -22,11 +22,15 @@ def configs(quick):
     if quick:
         return [
             {"sim": "ns2", "shape": base2, "forcing": True, "free_stream": True, "w": 2, "h": 2.0, "dt": 8.0, "rho": 2.0, "nu": 0.5},
-            {"sim": "ns2", "shape": (9, 8), "forcing": False, "free_stream": False, "w": 1, "h": 0.5, "dt": 1.0, "nu": 0.25},
+            {"sim": "ns2", "shape": (9, 8), "forcing": False, "free_stream": True, "w": 1, "h": 0.5, "dt": 1.0, "nu": 0.25},
+            {"sim": "ns2", "shape": (8, 9), "forcing": False, "free_stream": False, "w": 0, "h": 1.0, "dt": 2.0, "nu": 0.5},
             {"sim": "ns3", "shape": base3, "forcing": True, "free_stream": True, "filter": "multiplicative", "order": 2, "w": 2,
              "h": 0.5, "dt": 1.0, "rho": 0.5, "nu": 0.25},
-            {"sim": "ns3", "shape": (7, 6, 6), "forcing": False, "free_stream": False, "filter": "convolution", "order": 1, "w": 0,
+            # every pair (forcing, free stream) occurs per simulator class: the step paths differ per option combination
+            {"sim": "ns3", "shape": (7, 6, 6), "forcing": False, "free_stream": True, "filter": "convolution", "order": 1, "w": 0,
              "solver": "fast_diagonalisation", "h": 2.0, "dt": 4.0, "nu": 1.0},
+            {"sim": "ns3", "shape": (6, 6, 7), "forcing": True, "free_stream": False, "filter": "off", "order": 1, "w": 1,
+             "h": 1.0, "dt": 2.0, "rho": 0.5, "nu": 0.5},
             {"sim": "pt_scalar", "shape": (7, 9), "h": 0.25, "dt": 0.5, "nu": 0.125},
             {"sim": "pt_vector", "shape": (6, 7, 6), "h": 2.0, "dt": 4.0, "nu": 2.0},
             # the OpenMP path of the simulators (num_threads > 1)
